@@ -116,6 +116,7 @@ type JobResult struct {
 	Wall         float64
 	Samples      []map[string]interface{}
 	Skipped      int // obligations not searched after three counterexamples for the same assertion
+	NotRun       bool // not started: the run had already failed (fail fast)
 }
 
 var solverBin = envOr("VERIF_SOLVER", "z3-new")
